@@ -3,6 +3,7 @@
   (Paragraphs containing inline child elements are outside the claim, as the property says.)
 -/
 import Mrm.Proofs.ScriptP
+import Mrm.Spec.AccessHolds
 
 namespace Mrm
 
@@ -43,5 +44,31 @@ example :
       [.node "p" [] none none [], .node "p" [] (some " (note) ") none [], .node "item" [] none none [],
        .node "p" [] (some "(half") none [], .node "p" [] (some "  text  ") none []]) = ["(half", "text"] := by
   decide
+
+/-- C17 on EVERY running order that has a `roCreate`, whatever its timing metadata says (script and body do not
+    read it since the repair): `ro.script` and `ro.body` return, and are the concatenation of the stories'
+    specifications in running order.  (With `C12_history_any`: in every state reachable by schema-shaped messages.) -/
+theorem C17_text_any (d rc : Xml) (h : d.find "roCreate" = some rc) :
+    roScript d = .ok ((rc.findall "story").flatMap scriptSpec) ∧
+    roBody d = .ok ((rc.findall "story").flatMap bodySpec) := by
+  have hs : storyScript = scriptSpec := funext C17_script
+  have hb : storyBody = bodySpec := funext C17_body
+  simp only [roScript, roBody, h, hs, hb, and_self]
+
+theorem C17_text_holds (d rc : Xml) (s : List String) (b : List BodyEl) (h : d.find "roCreate" = some rc)
+    (hs : roScript d = .ok s) (hb : roBody d = .ok b) : holdsC17text d s b = true := by
+  obtain ⟨h1, h2⟩ := C17_text_any d rc h
+  rw [h1] at hs; rw [h2] at hb
+  cases hs; cases hb
+  simp [holdsC17text, storiesOfDoc, rcOf, h]
+
+/-- non-vacuity: a running order whose story duration is not a number and whose start does not parse -/
+example :
+    roScript (.node "mos" [] none none [.node "roCreate" [] none none
+      [.node "roEdStart" [] (some "junk") none [],
+       .node "story" [] none none [.node "storyID" [] (some "S") none [],
+         .node "mosExternalMetadata" [] none none [.node "mosPayload" [] none none [.node "StoryDuration" [] (some "00:01:30") none []]],
+         .node "p" [] (some " text ") none [], .node "p" [] (some "(note)") none []]]]) = .ok ["text"] := by
+  rfl
 
 end Mrm
